@@ -47,6 +47,8 @@ def gen_leaf(rng, counter):
         return (1, counter[0])
     if r < 0.82:
         return "s%d" % counter[0]
+    if r < 0.87:
+        return ...            # the Ellipsis object itself as an ordinary payload
     return Leaf(counter[0])
 
 
